@@ -114,6 +114,10 @@ def build(ctx):
                 numeric = any("#" in n_ for n_ in root + sub)
                 if sym0 and hashed and loc:
                     variants = [(pre0 + ch, 0) for ch in (alphabet if thorough else [alphabet[ti % (len(alphabet) - 3)], "q", "0"])]
+                elif sym0 and subidx >= 0 and "/" not in pre0:
+                    # byte inside the ROOT component of a table with a sub-tree: symbolic, it may complete the sub-tree
+                    # port's name and drag the whole second level into every path (260..450 s); enumerate it instead
+                    variants = [(pre0 + ch, 0) for ch in sorted(set(["q", "0", "/"] + (alphabet if thorough else alphabet[::2])))]
                 elif sym0 and numeric:
                     variants = [(pre0 + ch, 0) for ch in sorted(set(["0", "1", "9", "q", "/"] + alphabet if thorough else ["0", "2", "q", alphabet[ti % (len(alphabet) - 3)], alphabet[(ti + 2) % (len(alphabet) - 3)]]))]
                 else:
